@@ -52,8 +52,15 @@ def email_query(prefix, m, N, extra_defs=(), covers=None, timeout=900, **kw):
 
 
 def c01_queries(tier):
-    N = 24 if tier == 'quick' else 80
-    qs = [email_query('C01', m, N) for m in range(4)]
+    N = 24 if tier == 'quick' else 40
+    qs = [email_query('C01', m, N, timeout=3000) for m in range(4)]
+    # long family across the 64/65 boundary: bytes [3,61) hold one symbolic non-structural byte
+    L = 72 if tier == 'quick' else 80
+    for m in range(4):
+        q = email_query('C01long', m, L, extra_defs=D(VF_FILL_FROM=3, VF_FILL_TO=61, VF_MIN_LEN=60),
+                        covers=['end', 'lpart-too-long', 'accepted-lpart-64'], timeout=3000)
+        q.bounds = {'max_address_len': L, 'min_address_len': 60, 'structure': 'bytes [3,61) = one symbolic byte not in {@ [ ] . :}; all other bytes arbitrary'}
+        qs.append(q)
     return qs
 
 
@@ -141,7 +148,71 @@ def c03_queries(tier):
     return qs
 
 
+def c04_queries(tier):
+    qs = []
+    N = 9 if tier == 'quick' else 12
+    for us in (0, 1):
+        extra = ['-DLABELS_ALLOW_UNDERSCORE'] if us else []
+        qs.append(Query('C04-domain%s-N%d' % ('-us' if us else '', N), 'a_domain.c', repo=['src/is_ascii_domain.c'],
+                        defs=D(VF_N=N) + extra, unwind=N + 3,
+                        covers=['end', 'accepted-root-dot', 'accepted-hyphen', 'numeric', 'misplaced-hyphen'],
+                        bounds={'max_len': N, 'alphabet': '0x01-0xFF', 'LABELS_ALLOW_UNDERSCORE': bool(us)},
+                        functions=['is_ascii_domain'], timeout=3000))
+    K = 4
+    qs.append(Query('C04-domain-struct-K%d' % K, 'a_domain.c', repo=['src/is_ascii_domain.c'],
+                    defs=D(VF_STRUCT=K, VF_MAXLEN=262), unwind=264, unwindset={'harness.1': K + 1, 'harness.3': K + 1},
+                    covers=['end', 'rejected-label-too-long', 'accepted-label-63', 'accepted-total-253',
+                            'accepted-total-253-plus-root', 'rejected-254'],
+                    bounds={'total_len': '1..262', 'dots': '%d symbolic positions' % K, 'content': 'one symbolic fill byte + two arbitrary bytes at symbolic positions'},
+                    functions=['is_ascii_domain'], timeout=3000, weight=5))
+    return qs
+
+
+def ip_query(prefix, fn, N, ctx, covers, alphabet=False, **kw):
+    name = {4: 'ipv4', 6: 'ipv6', 0: 'ipaddr'}[fn]
+    stub = fn in (6, 0)
+    unit = ('src/is_ipv4_ipv6.c', [], ['is_ipv4'] if fn == 6 else ['is_ipv4', 'is_ipv6']) if stub else 'src/is_ipv4_ipv6.c'
+    return Query('%s-%s-N%d%s' % (prefix, name, N, '-ipalpha' if alphabet else ''), 'a_ip.c', repo=[unit],
+                 defs=D(VF_N=N, VF_CTX=ctx, VF_FN=fn) + (['-DVF_ALPHABET_IP'] if alphabet else []) + (['-DVF_STUB_V4'] if stub else []),
+                 unwind=N + ctx + 3, unwindset={'strspn.0': 24}, covers=['end'] + covers,
+                 bounds={'max_len': N, 'ctx': 'NUL | "]" NUL' + (' | "]" byte NUL' if ctx == 2 else ''),
+                         'alphabet': 'hex digits, ":", ".", one other byte' if alphabet else '0x01-0xFF'},
+                 functions=['is_' + name],
+                 note=('nested is_ipv4 replaced by an uninterpreted verdict within the bounds proved for the real is_ipv4' if fn == 6 else 'is_ipv4/is_ipv6 replaced by uninterpreted verdicts: dispatch only' if fn == 0 else ''), **kw)
+
+
+def c05_queries(tier):
+    qs = []
+    if tier == 'quick':
+        qs.append(ip_query('C05', 4, 12, 2, ['accepted-short-quad', 'between-bounds']))
+        qs.append(ip_query('C05', 6, 10, 2, ['accepted-double-colon', 'accepted-trailing-dc', 'accepted-v4-tail']))
+        qs.append(ip_query('C05', 0, 9, 1, ['accepted-v6', 'accepted-v4']))
+    else:
+        qs.append(ip_query('C05', 4, 16, 2, ['accepted-short-quad', 'between-bounds', 'accepted-long-quad'], timeout=3000))
+        qs.append(ip_query('C05', 6, 13, 2, ['accepted-double-colon', 'accepted-trailing-dc', 'accepted-v4-tail'], timeout=3000))
+        qs.append(ip_query('C05', 6, 20, 1, ['accepted-double-colon', 'accepted-trailing-dc', 'accepted-v4-tail'], alphabet=True, timeout=3000))
+        qs.append(ip_query('C05', 0, 12, 1, ['accepted-v6', 'accepted-v4'], timeout=3000))
+    Nb = 20 if tier == 'quick' else 40
+    qs += [email_query('C05', m, Nb, covers=['end', 'accepted-literal', 'accepted-tagged-v6', 'accepted-v4', 'accepted-untagged-v6'],
+                       timeout=3000) for m in range(4)]
+    return qs
+
+
 PROPS = {
+    'C05': {
+        'queries': c05_queries,
+        'level': 'model_checking',
+        'outside': ['literal contents longer than max_len', 'bytes after the end pointer other than "]" (no caller passes them)'],
+        'assumptions': ['reference recognisers ref/ref_ip.h: U = RFC 4291 text form, L = RFC 5321 section 4.1.3'],
+    },
+    'C04': {
+        'queries': c04_queries,
+        'level': 'model_checking',
+        'outside': ['arbitrary content on strings longer than max_len (only the structured family goes to 262 bytes)',
+                    'mode 6531: the IDNA conversion itself (libidn2 is a binary); the pipeline around it is C10/C07'],
+        'assumptions': ['reference recogniser ref/ref_domain.h is the reading of the property text',
+                        'the domain range ends at the terminating NUL (as in every call made by the library)'],
+    },
     'C03': {
         'queries': c03_queries,
         'level': 'model_checking',
